@@ -714,6 +714,25 @@ def track(R, RID='C05.track'):
             R.ob(RID, 'validator reset only at end of a text/continuation message', not bad,
                  'validator reset reachable without (FIN and text/continuation frame): %s - a control frame or a '
                  'non-final fragment would reset the validator in mid code point' % (bad[:1],), func=c.func, node=call)
+    # ... and nowhere else in the package: an awaitable / helper that resets the validator it was handed (per read, per
+    # frame) forgets a code point that straddles two fragments
+    mro_ = set(R.prog.mro(recv))
+    seenq = set()
+    for c in R.types.ctxs.values():
+        if c.func.qual in seenq or c.func.module.name.startswith('examples') or c.func.qual.startswith('utf8validator.'):
+            continue
+        if c.func.cls is not None and c.func.cls.qual in mro_:
+            continue
+        seenq.add(c.func.qual)
+        for n in own_nodes(c.func.node):
+            if isinstance(n, ast.Call) and isinstance(n.func, ast.Attribute) and n.func.attr == 'reset' \
+                    and not isinstance(n.func.value, ast.Call):
+                if any(t.kind == 'func' and t.qual == VAL + '.reset' for t in R.types.call_targets(n, c)) \
+                        or ('utf8' in U(n.func.value).lower() and 'valid' in U(n.func.value).lower()):
+                    R.ob(RID, 'no validator reset outside the parser\'s end-of-message bookkeeping', False,
+                         '%s resets a UTF-8 validator (`%s`): the parser\'s validator carries the state of a code point split '
+                         'across fragments / reads - resetting it per read rejects valid text and accepts a dangling '
+                         'sequence' % (c.func.qual, U(n)), func=c.func, node=n, construct='validator reset in %s' % c.func.qual)
     R.ob(RID, 'validator is reset at end of message', len(sites) >= 1,
          'the parser never resets its validator: the message after an incomplete one starts in a pending state',
          func='frame_parser.FrameParser.on_frame', node=None, construct='validator reset site')
